@@ -109,7 +109,7 @@ EXTRA2 = {
  "C02": (" Fourth part: polarization / magnetization state machine over the regenerated setter skeletons (excitation_sync for every assignment history; with the exported mu_0 iff the two constants agree, which they do not: the recorded finding as a theorem); the in_out keyword modelled for every magnet wrapper (B = mu H + J for every value); J / M in the observer frame end to end.",
          " + generated setter skeletons and constants (Gen/ExcSync, Gen/InOut) + exc, l1*, batchio, level2-jm streams"),
  "C03": (" Fourth part: covariance of the FINAL output after sumup / pixel_agg with any reduction / squeeze / dataframe, with a witness that aggregate-then-rotate is not covariant.", " + level2f stream (median / std / ptp / mean on rotated and left-handed sensors)"),
- "C04": (" Fourth part: pixel_agg with any reduction = reduction of the sensor-frame values of the sensor's own pixels, end to end; short paths are edge-padded (witness against cyclic tiling).", " + level2f stream"),
+ "C04": (" Fourth part: pixel_agg with any reduction = reduction of the sensor-frame values of the sensor's own pixels, end to end; short paths are edge-padded (witness against cyclic tiling). Fourth session: the handedness branch of getBH_level2 regenerated each run (Gen/Handed) and shown to be the x-flip V3.flipX the drivers evaluate, an involutive reflection, applied after the back-rotation, for the literal left only (left_handed_flips_x).", " + level2f stream + generated handedness branch (Gen/Handed)"),
  "C05": (" Fourth part: sumup = sum over the source axis for any reduction (what it is not: witness sum_of_max_ne_max_of_sum); TriangularMesh linear in the polarization.", ""),
  "C06": (" Fourth part: the vectorised elliptic-integral loop celv is row-wise, re-indexable and permutation-covariant; the n < 10 / n >= 10 dispatch agrees off the band 0 < |1-|kc|| <= 1e-6 (in-band difference as a theorem).", " + celbatch / el3batch rows"),
  "C07": (" Fourth part: nested observer collections (pre-order sensor axis) in the oracle and the iface stream.", ""),
